@@ -16,7 +16,8 @@ RULE = (
     'that logs every execute / executemany / executescript / commit.  For EVERY statement index of the fault-free '
     'trace an sqlite3.OperationalError is injected before and after the statement, and the statement is aborted part-way by '
     'SQLite itself (progress handler returning non-zero after 20 virtual-machine steps); the process is SIGKILLed (forked '
-    'child) before and after statement indices (quick: every 3rd, thorough: every one); executemany calls are '
+    'child) before and after statement indices (quick: every 3rd, thorough: every one) and, from outside, at random '
+    'instants of wall-clock (6 / 60 per step: also inside a statement or inside the commit); executemany calls are '
     'interrupted after r parameter rows (quick: first, middle, last; thorough: every row).  After each fault the '
     'logical dump of the file (sorted rows of every table, read through a fresh connection so that a hot journal is '
     'rolled back as the next command would) must equal the dump before the step or the dump of a clean run, and a '
@@ -32,11 +33,12 @@ ASSUMPTIONS = [
     'exhaustive over the statement indices of the datasets driven, not over datasets',
 ]
 EXHAUSTIVE = {'quick': False, 'thorough': True}
-SIZES = {'quick': dict(datasets=2, kill_every=3, rows='sample', histories=12), 'thorough': dict(datasets=8, kill_every=1, rows='all', histories=12)}
+SIZES = {'quick': dict(datasets=2, kill_every=3, rows='sample', histories=12, timed_kills=6), 'thorough': dict(datasets=8, kill_every=1, rows='all', histories=12, timed_kills=60)}
 REQUIRED = {
     tier: {
         'exception-faults-injected': 200,
         'kill-faults-injected': 60,
+        'timed-kills-while-running': 5,
         'interrupt-faults-injected': 40,
         'row-faults-injected': 6,
         'faults-after-first-write': 200,
@@ -109,6 +111,29 @@ def run_step_killed(argv, db, at, mode, row=None):
             os._exit(0)
     _, status = os.waitpid(pid, 0)
     return status
+
+
+def run_step_killed_after(argv, db, delay_s):
+    """Run the step in a forked child and SIGKILL it from outside after
+    delay_s seconds of wall-clock (anywhere, also in the middle of a statement
+    or of the commit).  Returns True if the child was still running when killed"""
+    import signal
+    import time
+
+    pid = os.fork()
+    if pid == 0:
+        try:
+            faults.disable()
+            data.cli([db if a == 'X' else a for a in argv])
+        finally:
+            os._exit(0)
+    time.sleep(delay_s)
+    try:
+        os.kill(pid, signal.SIGKILL)
+    except ProcessLookupError:
+        pass
+    _, status = os.waitpid(pid, 0)
+    return os.WIFSIGNALED(status)
 
 
 def fresh_copy(src, dst):
@@ -226,6 +251,20 @@ def enumerate_step_faults(ctx, case, name, argv, cur, tag, sizes):
                     continue
                 rec.hit('kill-faults-injected')
                 verdict('kill', at, mode)
+    # kills at arbitrary instants (wall-clock timer, not statement boundaries): the timing is
+    # only a way of choosing crash points, the verdict is on the state found afterwards
+    import time
+    t0 = time.time()
+    fresh_copy(cur, work)
+    run_step(argv, work)
+    t_clean = max(0.02, time.time() - t0)
+    krng = core.make_rng(ctx.seed, 'timed-kills', tag, name)
+    for _ in range(sizes.get('timed_kills', 6)):
+        rec.case()
+        fresh_copy(cur, work)
+        killed = run_step_killed_after(argv, work, krng.uniform(0.0, 1.1 * t_clean))
+        rec.hit('timed-kills-while-running' if killed else 'timed-kills-after-completion')
+        verdict('timed-kill', 1, 'timed-kill')
     # rows of executemany
     for idx, nrows in sorted(rows.items()):
         if nrows < 1:
